@@ -14,7 +14,7 @@ RULE = ("Hypothesis-generated classes of 1-5 parameters drawn from Integer, Numb
         "with random constraint configurations, and valid states built by construction (extreme finite floats, -0.0, big "
         "ints, unicode incl. escapes and lone surrogates, empty containers, None where allowed, datetimes with "
         "microseconds over years 1-9999, date-only and datetime ranges); class level and instance level, random subset=, "
-        "and serialize_value/deserialize_value per parameter; oracle = rebuilt object equal in value and exact Python type "
+        "serialize_value/deserialize_value per parameter, a second deserialization of the same text after the first result was edited in place, instances that follow reassigned class defaults; oracle = rebuilt object equal in value and exact Python type "
         "(recursively), text parses as strict JSON. Non-trivial = the state contains a type-sensitive value (tuple, "
         "datetime with microseconds, date-only range, None, integer-valued float, bool in a Number, empty container, year "
         "< 1000); distinct = case hash.")
@@ -36,6 +36,9 @@ def _case(draw):
         "level": draw(st.sampled_from(["instance", "instance", "class"])),
         "subset": draw(st.one_of(st.none(), st.lists(st.integers(0, n - 1), min_size=1, max_size=n, unique=True))),
         "ser_subset_only": draw(st.booleans()),
+        # how the instance-level state came about: constructor keywords, or an instance that owns per-instance Parameter
+        # objects and follows class defaults reassigned afterwards
+        "history": draw(st.sampled_from(["ctor", "ctor", "follow_class"])),
     }
 
 
@@ -78,6 +81,19 @@ def _marks(v, marks):
         marks.add("integer_valued_float")
 
 
+def _scribble(v):
+    """edits a deserialized container in place (as its new owner may); returns the number of edits"""
+    if isinstance(v, list):
+        n = sum(_scribble(x) for x in v)
+        v.append("scribble")
+        return n + 1
+    if isinstance(v, dict):
+        n = sum(_scribble(x) for x in v.values())
+        v["scribble"] = 1
+        return n + 1
+    return 0
+
+
 def execute(case):
     res = Result()
     specs = [jw.dec_spec(e) for e in case["params"]]
@@ -87,6 +103,13 @@ def execute(case):
     if case["level"] == "class":
         holder = K
         expected = {n: s[2] for n, s in zip(names, specs)}
+    elif case.get("history") == "follow_class":
+        holder = K()
+        holder.param.objects()                  # per-instance Parameter objects exist from here on
+        for n, s in zip(names, specs):
+            setattr(K, n, s[3])
+        expected = {n: getattr(holder, n) for n in names}
+        res.label("history:class_default_reassigned_after_instance_parameters_exist")
     else:
         holder = K(**{n: s[3] for n, s in zip(names, specs)})
         expected = {n: s[3] for n, s in zip(names, specs)}
@@ -132,6 +155,22 @@ def execute(case):
                     res.fail("C15.value_or_type_changed", f"{region}{specs[names.index(n)][0]} {n}: {expected[n]!r} "
                                                           f"({type(expected[n]).__name__}) came back as {got!r} "
                                                           f"({type(got).__name__}) via {parsed.get(n)!r}")
+        # the same text deserialized again, after the containers handed out the first time were edited in place
+        mutated = 0
+        for v in kwargs.values():
+            mutated += _scribble(v)
+        if mutated:
+            res.label("deserialized_twice_after_in_place_edit")
+            try:
+                again = K.param.deserialize_parameters(text, subset=None if case["ser_subset_only"] else subset)
+            except Exception as e:  # noqa: BLE001
+                res.fail("C15.deserialize_raised", f"second deserialize_parameters({text!r}) raised {type(e).__name__}: {e}")
+                again = {}
+            for n in names:
+                if n in again and not same_value(again[n], expected[n]):
+                    res.fail("C15.value_or_type_changed", f"{specs[names.index(n)][0]} {n}: deserializing the same text a second "
+                                                          f"time (after the first result was edited in place) gave {again[n]!r} "
+                                                          f"instead of {expected[n]!r}")
     # ---- per parameter ----------------------------------------------------------
     for n in names:
         try:
@@ -145,6 +184,12 @@ def execute(case):
         if not same_value(got, expected[n]):
             res.fail("C15.value_or_type_changed", f"{region}{specs[names.index(n)][0]} {n}: serialize_value/deserialize_value "
                                                   f"turned {expected[n]!r} into {got!r} via {s!r}")
+        if _scribble(got):
+            got2 = holder.param.deserialize_value(n, s)
+            if not same_value(got2, expected[n]):
+                res.fail("C15.value_or_type_changed", f"{specs[names.index(n)][0]} {n}: deserialize_value of the same text a second "
+                                                      f"time (after the first result was edited in place) gave {got2!r} instead "
+                                                      f"of {expected[n]!r}")
     for m in marks:
         res.label(m)
     res.nontrivial = bool(marks)
